@@ -38,6 +38,7 @@ from .interp import (
 from .sym import NumericUndecided, TooManyLeaves, UnsupportedOp, SObj, SMap
 
 REGISTRY = {}
+EXTRA_STATE_BUDGET = 120
 
 
 class Ctx(object):
@@ -226,6 +227,10 @@ def verify(contract, case=None, max_seconds=None):
         try:
             try:
                 args, kwargs = contract.setup(ctx)
+                if ctx.data.get("extra_fields") and max_seconds:
+                    # the pre-state had to be derived from the constructor (pyvc.extra): such units
+                    # get a smaller time budget, past which they are undecided
+                    max_seconds = min(max_seconds, EXTRA_STATE_BUDGET)
                 engine.hooks.update(contract.hooks(ctx))
                 if func.decorators:
                     raise Unsupported("decorated function %s (%s)" % (func.qualname, ", ".join(func.decorators)))
@@ -268,7 +273,7 @@ def verify(contract, case=None, max_seconds=None):
         for nm, status in seen_names:
             if status == "refuted":
                 refuted_count[nm] = refuted_count.get(nm, 0) + 1
-        if worklist and refuted_count and max(refuted_count.values()) >= 12 * len(refuted_count) and sum(refuted_count.values()) >= 12:
+        if worklist and refuted_count and (max(refuted_count.values()) >= 12 or sum(refuted_count.values()) >= 24):
             # the verdict of this unit is settled (a refuted obligation on a dozen paths): the
             # remaining paths are not explored
             res.undecided.append(("exploration of the unit stopped after %d refutations, %d paths pending" % (
